@@ -628,7 +628,8 @@ class HtmlTreeView(HtmlView):
             Html.element(
                 'div',
                 [
-                    title or make_title(value),
+                    # NOTE: the class name is data like any other.
+                    title or Html.escape(make_title(value)),
                 ],
                 css_classes=['summary-title', css_classes],
             ),
